@@ -26,9 +26,17 @@ ASSUMPTIONS = [
 ]
 
 
-def session(exe, lines, env):
-    r = subprocess.run([exe], input="\n".join(lines) + "\n", env=env, capture_output=True, text=True, timeout=900)
+def session(exe, lines, env, order=None):
+    """One process answering `lines`; with `order` (a permutation) the lines are asked in that order and the answers put back in
+    the original one, so that sessions differ in the history each query is asked after."""
+    asked = lines if order is None else [lines[i] for i in order]
+    r = subprocess.run([exe], input="\n".join(asked) + "\n", env=env, capture_output=True, text=True, timeout=900)
     out = [json.loads(l) for l in r.stdout.split("\n") if l.startswith("{") or l.startswith("[")]
+    if order is not None and len(out) == len(lines):
+        back = [None] * len(lines)
+        for pos, i in enumerate(order):
+            back[i] = out[pos]
+        out = back
     return r.returncode, out
 
 
@@ -63,13 +71,23 @@ def queries_for(rng, tier):
     for _ in range(200 if tier == "quick" else 1500):
         a, b = rng.choice(words), rng.choice(words)
         mixed.append("%s %s" % (a[:rng.randint(1, len(a))], b[:rng.randint(1, len(b))]))
-    qs = own + [w for w in words if w not in own] + pairs + amb + mixed
+    # the same words as a user may type them: capitalised, upper case (the analyzer lower-cases at index and at query time)
+    cased = []
+    for q in rng.sample(own, min(len(own), 150 if tier == "quick" else len(own))):
+        cased += [q.title(), q.upper(), q[0].upper() + q[1:]]
+    # words the index's query syntax treats as operators when capitalised, next to their lower-case spelling
+    opw = []
+    for q in rng.sample([x for x in own if " " in x], min(40 if tier == "quick" else 400, len(own))):
+        w = q.split(" ")
+        j = rng.choice([" not ", " or ", " and "])
+        opw += [w[0] + j + " ".join(w[1:]), w[0] + j.upper() + " ".join(w[1:])]
+    qs = own + [w for w in words if w not in own] + pairs + amb + mixed + cased + opw
     seen, out = set(), []
     for q in qs:
         if q not in seen:
             seen.add(q)
             out.append(q)
-    return out, {"own_words": len(own), "single_words": len(words), "two_word_heads": len(pairs), "prefixes": len(amb), "mixed_prefix_pairs": len(mixed)}
+    return out, {"own_words": len(own), "single_words": len(words), "two_word_heads": len(pairs), "prefixes": len(amb), "mixed_prefix_pairs": len(mixed), "capitalised": len(cased), "operator_words": len(opw)}
 
 
 K_MODEL = 24
@@ -86,13 +104,18 @@ def run(rng, tier, model_ok):
     nmem = 4 if tier == "quick" else 16
     sessions = []          # (label, rc, answers)
     with concurrent.futures.ThreadPoolExecutor(max_workers=8) as ex:
-        futs = [("memory#%d" % i, ex.submit(session, exe, lines_model if i == 0 else lines_k1, make_env(os.path.join(root, "m%d" % i), memory=True)))
+        def perm(k):
+            o = list(range(len(lines_k1)))
+            rng.shuffle(o)
+            return o
+        futs = [("memory#%d" % i, ex.submit(session, exe, lines_model if i == 0 else lines_k1, make_env(os.path.join(root, "m%d" % i), memory=True),
+                                            None if i == 0 else perm(i)))
                 for i in range(nmem)]
         disk = os.path.join(root, "disk")
         os.makedirs(disk)
         dsess = []
         dsess.append(("disk first build",) + session(exe, lines_k1, make_env(disk)))
-        dsess.append(("disk reopen#1",) + session(exe, lines_k1, make_env(disk)))
+        dsess.append(("disk reopen#1",) + session(exe, lines_k1, make_env(disk), perm(0)))
         dsess.append(("disk reopen#2",) + session(exe, lines_k1, make_env(disk)))
         # force a rebuild over the existing directory (stale hash), then reopen that
         mp = os.path.join(disk, "facts", "meta.json")
@@ -102,7 +125,7 @@ def run(rng, tier, model_ok):
         except Exception:
             pass
         dsess.append(("disk rebuild over existing",) + session(exe, lines_k1, make_env(disk)))
-        dsess.append(("disk reopen after rebuild",) + session(exe, lines_k1, make_env(disk)))
+        dsess.append(("disk reopen after rebuild",) + session(exe, lines_k1, make_env(disk), perm(0)))
         if tier == "thorough":
             for i in range(3):
                 d2 = os.path.join(root, "disk%d" % i)
